@@ -69,7 +69,8 @@ Print Assumptions C16_unresolved_reported.
    that are unions / aliases of string literals (NamesProofs), nested to any depth -
    resolve_type_elements returns exactly the members the encoding denotes ([den]: the members of the
    literals in order, an alias transparent, Partial / Required flipping only the optional flag) and
-   leaves the state alone (no diagnostic).  `extends` / indexed accesses are outside
+   leaves the state alone (no diagnostic); a declared interface contributes its own members followed by
+   those of every interface it extends, to any depth of `extends`.  Indexed accesses are outside
    the grammar: their laws are above, their composition is decided on real outputs. *)
 Theorem C16_resolution_is_denotation : forall E s e fuel,
   (pdepth e <= fuel)%nat -> pwf E s e -> rte E fuel (enc_p E e) s = (den e, s).
@@ -80,3 +81,8 @@ Theorem C16_encoding_hypotheses_satisfiable :
   pwf E_dummy st0 penc_example /\ (pdepth penc_example <= type_fuel)%nat.
 Proof. exact penc_example_ok. Qed.
 Print Assumptions C16_encoding_hypotheses_satisfiable.
+
+Theorem C16_interface_hypotheses_satisfiable :
+  pwf E_dummy st_iface iface_example /\ List.length (den iface_example) = 2%nat.
+Proof. exact iface_example_ok. Qed.
+Print Assumptions C16_interface_hypotheses_satisfiable.
